@@ -167,12 +167,30 @@ def python_obligations(rep, prop="C12"):
                         key = next((k.value for k in n.keywords if k.arg == "key"), None)
                         if key is not None and not _injective_key(key):
                             # sorted() is stable: elements with equal keys keep their INPUT order, which for a set is the hash
-                            # order; a key that maps different elements to one value (str.lower, len, ...) lets that order through
-                            ob.status = REFUTED
-                            ob.detail = (f"`{ast.unparse(n)[:90]}` sorts a set by a key that can tie for different elements: tied "
-                                         f"elements stay in set-iteration (hash) order")
+                            # order; a key that maps different elements to one value (str.lower, len, ...) lets that order through.
+                            # Refuted only for keys that are visibly many-to-one; any other key function is not decided here.
+                            if _many_to_one_key(key):
+                                ob.status = REFUTED
+                                ob.detail = (f"`{ast.unparse(n)[:90]}` sorts a set by a key that ties for different elements (case "
+                                             f"folding / length): tied elements stay in set-iteration (hash) order")
+                            else:
+                                ob.status = UNDECIDED
+                                ob.detail = (f"`{ast.unparse(n)[:90]}` sorts a set by a key function; whether it can tie for different "
+                                             f"elements is not decided syntactically (see the hash-seed stand-in)")
                         out.append(rep.add(ob))
     return out
+
+
+def _many_to_one_key(key):
+    """str.lower / str.upper / str.casefold / len, directly or applied to the lambda's parameter"""
+    text = ast.unparse(key)
+    if text in ("str.lower", "str.upper", "str.casefold", "len", "str.title", "str.capitalize"):
+        return True
+    if isinstance(key, ast.Lambda) and len(key.args.args) == 1:
+        p = key.args.args[0].arg
+        body = ast.unparse(key.body)
+        return body in (f"{p}.lower()", f"{p}.upper()", f"{p}.casefold()", f"len({p})", f"{p}.title()", f"{p}.capitalize()")
+    return False
 
 
 def _injective_key(key):
